@@ -98,6 +98,12 @@ const (
 	TooFew   = "too-few"  // must be rejected, body must not run
 	TooMany  = "too-many" // must be rejected, body must not run
 	Unpinned = "unpinned" // the property leaves error-or-not open (see Why)
+	// OddKeys: a lambda list with &key and without &rest got an odd number of
+	// arguments in the keyword part: the last keyword has no value, an
+	// argument is missing (CLHS 3.5.1.6; slip rejects it itself with "Missing
+	// value for key"). Must be rejected, body must not run. With &rest slip
+	// documents its own splitting of the tail, which stays Unpinned.
+	OddKeys = "odd-keys"
 )
 
 // Result is what the lambda list prescribes.
@@ -301,6 +307,9 @@ func Bind(l *LL, args []string, outer map[string]string) *Result {
 		// the remaining arguments must be a property list of keywords
 		if len(remaining)%2 == 1 {
 			res.Class, res.Why, res.Partial = Unpinned, "odd-key-tail", true
+			if l.Rest == "" && IsKeyword(remaining[len(remaining)-1]) && allKeywordsAtEven(remaining) {
+				res.Class = OddKeys
+			}
 		} else {
 			for k := 0; k < len(remaining); k += 2 {
 				if !IsKeyword(remaining[k]) {
@@ -395,4 +404,15 @@ func supplied(l *LL, args []string, name string) string {
 		}
 	}
 	return "nil"
+}
+
+// allKeywordsAtEven: every even position of the keyword part holds a keyword,
+// so the only thing wrong with it is the missing last value.
+func allKeywordsAtEven(rem []string) bool {
+	for k := 0; k < len(rem); k += 2 {
+		if !IsKeyword(rem[k]) {
+			return false
+		}
+	}
+	return true
 }
